@@ -223,7 +223,19 @@ class BuilderGen:
                 continue
             at.setdefault(tj, "L %d" % rng.randint(0, 5))
             sets.setdefault(tj, []).append(4 + j)
-        ops = ["N"] * (2 + len(later)) + ["L 0", "J %s %d 2 3" % (rng.choice(CONDS), rng.choice([0, 1, 2, 3, 7]))]
+        extra = 0
+        if rng.random() < 0.3:
+            # the far destination is an unconditional jump that skips over two returns of their own
+            t_far = tA if tA > tB else tB
+            jl = 4 + len(later)
+            extra = 1
+            at[t_far] = "G %d" % jl
+            at[t_far + 1] = "R %d" % (0x50000 + 31)
+            at[t_far + 2] = "R %d" % (0x50000 + 32)
+            at.setdefault(t_far + 3, "L %d" % rng.randint(0, 5))
+            sets.setdefault(t_far + 3, []).append(jl)
+            n = max(n, t_far + 6)
+        ops = ["N"] * (2 + len(later) + extra) + ["L 0", "J %s %d 2 3" % (rng.choice(CONDS), rng.choice([0, 1, 2, 3, 7]))]
         for p in range(2, n):
             for lab in sets.get(p, []):
                 ops.append("S %d" % lab)
@@ -260,6 +272,15 @@ class BuilderGen:
                 labels_at.setdefault(tx2, []).append(4)
         n = max(labels_at) + 3
         at = {tr - 1: "R %d" % (0x50000 + 21), tr: "R %d" % 0x7fff0000, tx - 1: "R %d" % (0x50000 + 22)}
+        if rng.random() < 0.5 and all(abs(tx + d - t) > 1 for d in (0, 1, 2, 3) for t in labels_at if t != tx):
+            # C's far destination is an unconditional jump over two returns of their own
+            nlab += 1
+            jl = nlab + 1
+            at[tx] = "G %d" % jl
+            at[tx + 1] = "R %d" % (0x50000 + 23)
+            at[tx + 2] = "R %d" % (0x50000 + 24)
+            labels_at.setdefault(tx + 3, []).append(jl)
+            n = max(n, tx + 6)
         ops = ["N"] * nlab + ["L 0"]
         for p in range(1, n):
             for lab in labels_at.get(p, []):
@@ -776,6 +797,13 @@ class PolicyGen:
                         (a, o, v) = rng.choice(cs)
                         if a <= 5:
                             args[a] = argvals(v)
+                    if leak and cs and rng.random() < 0.15:
+                        # all lists fail, and the argument a condition looks at holds (in its low half, its high half or both)
+                        # a word that is another entry's syscall number or operand half
+                        (a, o, v) = rng.choice(cs)
+                        if a <= 5:
+                            w = rng.choice(leak)
+                            args[a] = rng.choice([w, w << 32, (w << 32) | w])
                     if len(cond_by_nr[nr]) > 1 and rng.random() < 0.35:
                         # a value built from this list's operand AND a sibling list's operand on the same argument
                         cs2 = rng.choice(cond_by_nr[nr])
